@@ -516,7 +516,7 @@ FAULT_CLAUSES = {
     "C15": {"ErrorSurfaces"},
     "C17": {"QuerierBeforeExec", "QuerierAfterReturn", "QuerierClosedOnce", "DataUnmodified"},
 }
-FAULT_MODES = {"C13": ["panic"], "C14": ["cancel", "block", "cancelcall"], "C15": ["err"], "C17": ["err", "panic", "cancel", "block"]}
+FAULT_MODES = {"C13": ["panic"], "C14": ["cancel", "block", "cancelcall", "gate"], "C15": ["err"], "C17": ["err", "panic", "cancel", "block"]}
 
 
 def fault_check(run, rule_extra, assumptions):
@@ -544,6 +544,7 @@ def fault_check(run, rule_extra, assumptions):
     run.cov["traces_validated_against_impl"] = st.get("runs", 0)
     run.cov["samples"] = [{"query": h.get("q"), "cfg": h.get("cfg")} for h in list(headers_of(traces, {s["id"] for s in scs[:3]}).values())]
     run.cov["fault_stats"] = st
+    run.cov["evaluations"] = st.get("runs", 0)
     if st.get("runs", 0) == 0 or st.get("fired", 0) == 0:
         raise Infra("vacuous run: no fault fired: %s" % st)
     return vlib.finish(run, "fault_enumeration",
@@ -585,6 +586,35 @@ def c17(run):
                        ["querier open/close order from the storage's own event log (global sequence numbers)"])
 
 
+def c12(run):
+    binary = vlib.build(race=True)
+    quick = run.tier == "quick"
+    scs = vlib.generate(run, "Gen_Conc", gen_cfg(run.tier, run.seed, 6 if quick else 1, ["EmitConc"]), "conc", fam="C12", cap=(60 if quick else 1200), timeout=600)
+    log("Gen_Conc.tla: %d client mixes" % len(scs))
+    racelog = run.path("race")
+    os.environ["GORACE"] = "log_path=%s halt_on_error=0" % racelog
+    os.environ["VREPLAY_RACE_LOG"] = racelog
+    vlib.GOENV["GORACE"] = os.environ["GORACE"]
+    vlib.GOENV["VREPLAY_RACE_LOG"] = racelog
+    chunks = max(1, min(vlib.NCPU // 4, len(scs) // 10))
+    traces = vlib.replay(run, binary, "concurrent", scs, "c", chunks=chunks, j=max(1, vlib.NCPU // 4), stall=180)
+    st = session_validate(run, traces, lambda clause, fam: ["C12"] if clause in ("Agree", "RaceFree") else (["C13"] if clause == "ProcessDead" else []))
+    run.cov["samples"] = [{"mix": s["cfg"]["mix"], "clients": s["cfg"]["k"], "rounds": s["cfg"]["rounds"]} for s in scs[:3]]
+    if st.get("obs", 0) == 0:
+        raise Infra("vacuous run")
+    return vlib.finish(run, "model_checking",
+                       rule=("Gen_Conc.tla enumerates client mixes (2..32 clients; all the same text / a 13-query native basket / native and "
+                             "fallback mixed / through a distributed engine sharing two remote engines; instant or range; 1 or 3 rounds; "
+                             "simultaneous or staggered start). The replayer, built with the Go race detector, first runs each query alone on "
+                             "the shared engine, then all clients concurrently with seeded yields at storage callbacks and at the engine's "
+                             "scheduling points; each concurrent result is an observation of SessionTrace.tla (must equal the solo result), "
+                             "each race report with an engine frame is a `race` event that no action of the specification accepts; TLC "
+                             "validates the trace. distinct_nontrivial = concurrent executions compared with their solo result."),
+                       assumptions=["the race detector is the sensor for unsynchronised accesses (see DESIGN.md §8); it only sees accesses that were executed",
+                                    "comparator classes (1e-9)"],
+                       distinct_nontrivial=st.get("obs", 0) - st.get("keys", 0))
+
+
 def c07(run):
     binary = vlib.build()
     mc_volcano(run)
@@ -608,4 +638,4 @@ def c07(run):
                        distinct_nontrivial=st.get("obs", 0) - st.get("keys", 0))
 
 
-RECIPES = {"C01": c01, "C07": c07, "C08": c08, "C09": c09, "C10": c10, "C11": c11, "C13": c13, "C14": c14, "C15": c15, "C17": c17, "C20": c20, "C16": c16, "C18": c18, "C19": c19, "C02": c02, "C03": c03, "C04": c04, "C05": c05, "C06": c06}
+RECIPES = {"C01": c01, "C07": c07, "C08": c08, "C09": c09, "C10": c10, "C11": c11, "C12": c12, "C13": c13, "C14": c14, "C15": c15, "C17": c17, "C20": c20, "C16": c16, "C18": c18, "C19": c19, "C02": c02, "C03": c03, "C04": c04, "C05": c05, "C06": c06}
